@@ -130,25 +130,28 @@ Race(d, g, ks, style) ==
 \* MultiN transactions issued by concurrent committers (enqueued in this order while the writer is
 \* busy, then written as ONE batch by writeRequests). vis = after all of them; pre[i] = after the
 \* first i: the states allowed while the operation is in flight.
-RECURSIVE MultiVis(_, _, _, _)
-MultiVis(v, ks, style, i) ==
+\* Transaction i writes its own key i and the shared key NKeys, so that the loss of any one of
+\* them shows in the visible state (needs NKeys > MultiN).
+MultiKs(i) == {i, NKeys}
+RECURSIVE MultiVis(_, _)
+MultiVis(v, i) ==
     IF i > MultiN THEN <<>>
-    ELSE LET op == [t |-> "commit", ks |-> ks, dels |-> {}, u |-> ncommit + i]
-         IN <<ApplyOp(v, op)>> \o MultiVis(ApplyOp(v, op), ks, style, i + 1)
-Multi(ks, style) ==
-    /\ Room /\ MultiAt # 0 /\ Len(hist) + 1 = MultiAt /\ ks \in KeySets /\ style \in Styles \ {4}
-    /\ LET sk == SeqOfSet(ks)
-           txs == [i \in 1..MultiN |-> [j \in 1..Len(sk) |->
-                     [k |-> sk[j], v |-> ncommit + i, big |-> IsBig(style, sk[j]), del |-> FALSE]]]
-           pre == MultiVis(vis, ks, style, 1)
+    ELSE LET op == [t |-> "commit", ks |-> MultiKs(i), dels |-> {}, u |-> ncommit + i]
+         IN <<ApplyOp(v, op)>> \o MultiVis(ApplyOp(v, op), i + 1)
+Multi(style) ==
+    /\ Room /\ MultiAt # 0 /\ Len(hist) + 1 = MultiAt /\ style \in Styles \ {4} /\ NKeys > MultiN
+    /\ LET txs == [i \in 1..MultiN |-> [j \in 1..2 |->
+                     [k |-> SeqOfSet(MultiKs(i))[j], v |-> ncommit + i,
+                      big |-> IsBig(style, SeqOfSet(MultiKs(i))[j]), del |-> FALSE]]]
+           pre == MultiVis(vis, 1)
        IN /\ H([op |-> "multi", w |-> <<>>, txs |-> txs, g |-> 0, vis |-> pre[MultiN], pre |-> pre])
           /\ vis' = pre[MultiN]
           /\ ncommit' = ncommit + MultiN
-          /\ lay' = [lay EXCEPT !.mem = @ \cup ks]
+          /\ lay' = [lay EXCEPT !.mem = @ \cup (1..MultiN) \cup {NKeys}]
     /\ UNCHANGED sync
 
 Next ==
-    \/ \E ks \in KeySets, style \in Styles : Multi(ks, style)
+    \/ \E style \in Styles : Multi(style)
     \/ \E d \in Races, g \in 0..((NKeys + 1) \div 2), ks \in KeySets, style \in Styles : Race(d, g, ks, style)
     \/ \E api \in {"commit", "batch"}, ks \in KeySets, style \in Styles :
           Commit(api, ks, style)
